@@ -306,7 +306,7 @@ func TestC01Histories(t *testing.T) {
 	topics := []string{"m/a", "m/b", "m/a/a", "m/a/b", "m/b/a", "m/b/b", "m/a/b/a", "m/a/b/b", "m/b/a/b", "m/c", "m/a/a/a", "m/a/c", "m", "m/b/b/b"}
 	type hop struct {
 		kind, s, f string
-		q         int32
+		q          int32
 	}
 	var ops []hop
 	for _, s := range sessions {
